@@ -28,4 +28,7 @@ for sid in sorted(os.listdir(SEEDED)):
     first = "see text"
     if m.get("cross_commit") and prop in cross:
         first = "fires (%d)" % cross[prop]["violations"] if cross[prop]["violations"] else "silent"
-    print("| %s | %s | %s | %s | %s | %s%s |" % (sid, prop, ONE.get(sid, ""), first, own_s, ", ".join(others) or "-", " (frozen machinery)" if m.get("cross_commit") else ""))
+    elif m.get("frozen_own"):
+        fo = (m["frozen_own"]["result"] or {}).get("%s/quick" % prop) or {}
+        first = "fires (%d)" % fo["violations"] if fo.get("violations") else "silent"
+    print("| %s | %s | %s | %s | %s | %s%s |" % (sid, prop, ONE.get(sid, ""), first, own_s, ", ".join(others) or "-", " (frozen machinery)" if m.get("cross_commit") else (" (own check only)" if m.get("frozen_own") else "")))
